@@ -220,12 +220,16 @@ def l2_check(run):
                                     boundary = c
                     except Exception:
                         boundary = "?"
+                from .c12 import _input_fold
+
+                fail["input_fold"] = _input_fold(run, a, op)
                 fail["input"] = xobs
                 fail["cal_fwd_during_op"] = [w[3] for w in run.regw if w[2] == "cal_fwd"]
                 viols.append({"oracle": "L2.navigation", "label": common.label(op), "actor": a["name"], "i": i, "op": op,
                               "sim_obs": robs, "detail": fail,
                               "sig_extra": [boundary],
                               "facts": {"method": op[2], "type": xobs[0], "boundary": boundary,
+                                        "class": "%s/%s/fold%s" % (op[2], boundary, fail["input_fold"]),
                                         "raises": robs[1] if isinstance(robs, list) and robs and robs[0] == "EXC" else None}})
     return viols, {"l2_evals": n}
 
